@@ -126,6 +126,8 @@ class Setup:
         self.h1 = list(case["h"])
         self.m = self.order // 2
         self.kw = dict(case.get("kw", {}))
+        # drawn cache settings override the check's default ones
+        self.kw.update(case.get("cache_kw", {}))
         # Einstein's constant is a documented public attribute (default
         # 8 pi); units with kappa = 1 are set by assigning rel.kappa
         self.kappa = float(case.get("kappa", ref4d.KAPPA))
@@ -219,6 +221,8 @@ def extra_classes(case, ex):
         out.append("|det g|<1e-8")
     if case.get("kappa", ref4d.KAPPA) != ref4d.KAPPA:
         out.append("kappa!=8pi")
+    if case.get("cache_kw"):
+        out.append("cache:" + ",".join(sorted(case["cache_kw"])))
     return out
 
 
